@@ -55,6 +55,10 @@ func run(c *evid.Case) {
 	for _, s := range res.States {
 		c.Distinct("abstract_states", s)
 	}
+	if res.Directed != "" {
+		c.Count("executions_opening_with_lock_then_break", 1)
+		c.Distinct("directed_variants", evid.Hash(res.Directed, cfg.N))
+	}
 	if res.Nontrivial {
 		c.Nontrivial(res.Traj)
 	}
